@@ -20,6 +20,7 @@
 #include <tao/pegtl.hpp>
 #include <tao/pegtl/buffer_input.hpp>
 #include <tao/pegtl/contrib/coverage.hpp>
+#include <tao/pegtl/contrib/control_action.hpp>
 #include <tao/pegtl/contrib/state_control.hpp>
 
 using namespace tao::pegtl;
@@ -458,6 +459,83 @@ static void one_case( const int g, const int c, const std::string& s )
    }
 }
 
+// P9 contrib/control_action.hpp: an action with the control-like hooks start / success / failure ( / unwind ) sees, for its own
+// rule, start followed by exactly one closing hook, nested like a call stack - with and without an unwind() member
+static std::vector< std::pair< char, int > > g_ca;
+template< int Id, bool Unwind >
+struct ca_log : control_action
+{
+   template< typename In, typename... St > static void start( const In&, St&&... ) { g_ca.emplace_back( 'S', Id ); }
+   template< typename In, typename... St > static void success( const In&, St&&... ) { g_ca.emplace_back( 'O', Id ); }
+   template< typename In, typename... St > static void failure( const In&, St&&... ) { g_ca.emplace_back( 'F', Id ); }
+};
+template< int Id >
+struct ca_log< Id, true > : ca_log< Id, false >
+{
+   template< typename In, typename... St > static void unwind( const In&, St&&... ) { g_ca.emplace_back( 'U', Id ); }
+};
+template< bool Unwind >
+struct ca_fam
+{
+   template< typename Rule > struct act : nothing< Rule > {};
+};
+#define CA_RULE( R, ID ) \
+   template<> template<> struct ca_fam< true >::act< R > : ca_log< ID, true > {}; \
+   template<> template<> struct ca_fam< false >::act< R > : ca_log< ID, false > {};
+CA_RULE( g0::A, 1 )
+CA_RULE( g0::B, 2 )
+CA_RULE( g1::K, 3 )
+CA_RULE( g1::V, 4 )
+CA_RULE( g2::N, 5 )
+CA_RULE( g3::N, 6 )
+CA_RULE( g3::T, 7 )
+CA_RULE( g4::P, 8 )
+CA_RULE( g4::E, 9 )
+CA_RULE( g5::N, 10 )
+CA_RULE( g5::M, 11 )
+CA_RULE( g6::N, 12 )
+CA_RULE( g6::Q, 13 )
+CA_RULE( g8::N, 14 )
+CA_RULE( g8::T, 15 )
+#undef CA_RULE
+
+template< typename G, bool Unwind >
+static void control_action_case( const int g, const std::string& s )
+{
+   ++n_cases;
+   g_ca.clear();
+   int r;
+   memory_input<> in( s.data(), s.data() + s.size(), "c08" );
+   try {
+      r = parse< G, ca_fam< Unwind >::template act >( in ) ? 1 : 0;
+   }
+   catch( const std::exception& ) {
+      r = 2;
+   }
+   n_events += g_ca.size();
+   std::vector< int > st;
+   std::string shown;
+   for( const auto& e : g_ca ) {
+      shown += std::string( 1, e.first ) + std::to_string( e.second ) + " ";
+   }
+   for( const auto& e : g_ca ) {
+      if( e.first == 'S' ) {
+         st.push_back( e.second );
+      }
+      else {
+         if( st.empty() || st.back() != e.second ) {
+            viol( "control_action", g, Unwind ? 5 : 6, s, std::string( "closing hook " ) + e.first + " of action " + std::to_string( e.second ) + " does not close its innermost open start: " + shown );
+            return;
+         }
+         st.pop_back();
+      }
+   }
+   // without unwind() an exception legitimately leaves starts open; with unwind() (and for runs without exception) nothing may stay open
+   if( !st.empty() && ( Unwind || r != 2 ) ) {
+      viol( "control_action", g, Unwind ? 5 : 6, s, std::to_string( st.size() ) + " start hook(s) of control_action actions never closed (result " + std::to_string( r ) + "): " + shown );
+   }
+}
+
 // P7 a user control WITH unwind() wrapped by state_control: its own log is a Dyck word as well (in particular no unwind for a
 //    rule it never saw start, e.g. the hidden internal::must< R > below must< A, B >)
 template< typename G >
@@ -482,6 +560,8 @@ template< typename G >
 static void all_cfgs( const int g, const std::string& s )
 {
    wrapped_unwind< G >( g, s );
+   control_action_case< G, true >( g, s );
+   control_action_case< G, false >( g, s );
    one_case< G, act_none, normal >( g, 0, s );
    one_case< G, act_veto, normal >( g, 1, s );
    one_case< G, act_void, mi_control >( g, 2, s );
